@@ -590,6 +590,7 @@ def decide(prop, tier, seed):
         "lean_build_s": round(lean_dt, 1),
     }
     evaluations = 0
+    validated = 0
     nontrivial = 0
     samples = []
     streams_cov = []
@@ -598,6 +599,8 @@ def decide(prop, tier, seed):
             continue
         a = r["acc"]
         evaluations += a["steps"]
+        if st["kind"] not in ("hammer", "compile"):
+            validated += a["steps"]
         nontrivial += len(a["nontrivial"])
         samples += a["samples"]
         d = {
@@ -617,7 +620,7 @@ def decide(prop, tier, seed):
         "distinct_nontrivial": nontrivial,
         "rule": spec.get("rule", ""),
         "samples": samples[:6] if samples else [o["theorem"] for o in obligations[:3]],
-        "traces_validated_against_impl": evaluations,
+        "traces_validated_against_impl": validated,
         "streams": streams_cov,
         "failing_input_search_episodes": searched,
         "exhaustive": False,
@@ -633,7 +636,7 @@ def decide(prop, tier, seed):
 
     for l in out_lines:
         print(l)
-    print(f"{prop} {tier}: theorems {n_dis}/{n_obl} discharged; {evaluations} implementation steps compared with the model, "
+    print(f"{prop} {tier}: theorems {n_dis}/{n_obl} discharged; {evaluations} implementation steps observed ({validated} compared with the model), "
           f"{nontrivial} distinct non-trivial; obligations {'ok' if not oproblems else 'BROKEN'}; "
           f"correspondence {'ok' if not cproblems else 'BROKEN'}; monitor failures {len(mon_fail)}; {time.time() - t0:.0f}s")
     for p in oproblems[:5]:
